@@ -431,7 +431,85 @@ func genTransportSkel(repo string) (string, error) {
 			return true
 		})
 	}
-	fmt.Fprintf(&b, "Definition gen_tunnel_ctx : string := %s.\n", coqStr(tctx))
+	fmt.Fprintf(&b, "Definition gen_tunnel_ctx : string := %s.\n\n", coqStr(tctx))
+
+	// What the callers do when their context ends: the body of every select
+	// arm on ctx.Done() in transport.call and transport.asyncCall, as skeleton
+	// lines.
+	var arms []string
+	for _, f := range []skelFn{{"transport", "asyncCall"}, {"transport", "call"}} {
+		fd := p.funcDecl(f.recv, f.name)
+		if fd == nil || fd.Body == nil {
+			arms = append(arms, fmt.Sprintf("(%s, [%s])", coqStr(f.String()), coqStr("0 unknown function not found")))
+			continue
+		}
+		ast.Inspect(fd.Body, func(n ast.Node) bool {
+			cc, ok := n.(*ast.CommClause)
+			if !ok || cc.Comm == nil {
+				return true
+			}
+			w := &skelWalker{p: p, fn: f.String()}
+			if w.armOf(cc.Comm) != "ARecv "+coqStr("ctx.Done()") {
+				return true
+			}
+			w.block(0, cc.Body)
+			var ls []string
+			for _, l := range w.lines {
+				ls = append(ls, coqStr(l))
+			}
+			arms = append(arms, fmt.Sprintf("(%s, [%s])", coqStr(f.String()), strings.Join(ls, "; ")))
+			return true
+		})
+	}
+	fmt.Fprintf(&b, "Definition gen_ctx_done_arms : list (string * list string) :=\n  %s.\n\n", coqList(arms))
+
+	// Who asks the serve goroutine to look a call up, and under which id:
+	// every composite literal of type pendingFetch in the package, with the
+	// function it is in and the expression of its id field.
+	var makers []string
+	for _, fd := range p.allFuncs() {
+		if fd.Body == nil {
+			continue
+		}
+		name := skelFn{recvName(fd), fd.Name.Name}.String()
+		ast.Inspect(fd.Body, func(n ast.Node) bool {
+			cl, ok := n.(*ast.CompositeLit)
+			if !ok || typeName(cl.Type) != "pendingFetch" {
+				return true
+			}
+			idx := "(none)"
+			for _, e := range cl.Elts {
+				if kv, ok := e.(*ast.KeyValueExpr); ok && p.src(kv.Key) == "id" {
+					idx = p.src(kv.Value)
+				}
+			}
+			makers = append(makers, fmt.Sprintf("(%s, %s)", coqStr(name), coqStr(idx)))
+			return true
+		})
+	}
+	fmt.Fprintf(&b, "Definition gen_pendingFetch_makers : list (string * string) :=\n  %s.\n\n", coqList(makers))
+
+	// Who writes the id of an exchange: every assignment to a field named id.
+	var writers []string
+	for _, fd := range p.allFuncs() {
+		if fd.Body == nil {
+			continue
+		}
+		name := skelFn{recvName(fd), fd.Name.Name}.String()
+		ast.Inspect(fd.Body, func(n ast.Node) bool {
+			as, ok := n.(*ast.AssignStmt)
+			if !ok {
+				return true
+			}
+			for _, l := range as.Lhs {
+				if se, ok := l.(*ast.SelectorExpr); ok && se.Sel.Name == "id" {
+					writers = append(writers, fmt.Sprintf("(%s, %s)", coqStr(name), coqStr(p.src(as))))
+				}
+			}
+			return true
+		})
+	}
+	fmt.Fprintf(&b, "Definition gen_exchange_id_writers : list (string * string) :=\n  %s.\n", coqList(writers))
 	return b.String(), nil
 }
 
